@@ -361,7 +361,8 @@ def run(facts, rep, tier):
     checkd = [q for q in c.hir if ends(q, "TypeEntry::check_defaults")]
     if rep.floor("C06.W1", "finalize / check_defaults", len(finalize) + len(checkd), 2):
         fz, cd = finalize[0], checkd[0]
-        rep.ob("C06.W1", "finalize-validates-defaults", cd in calls_in(c.hir[fz]["body"]) and outcome(c.hir[fz]["body"]) == "value" and src(block_last(c.hir[fz]["body"])).endswith("check_defaults(type_space)"),
+        lastfz = block_last(c.hir[fz]["body"])
+        rep.ob("C06.W1", "finalize-validates-defaults", cd in calls_in(c.hir[fz]["body"]) and outcome(c.hir[fz]["body"]) == "value" and lastfz.get("k") == "mcall" and lastfz.get("fn") == cd,
                "finalize ends in self.check_defaults(type_space) (its Result is the fn's result)", c.fns[fz].get("sp"))
         # check_defaults: type-level default of each named kind, property defaults of structs and struct variants
         body = c.hir[cd]["body"]
@@ -369,14 +370,16 @@ def run(facts, rep, tier):
         for kind in ("TypeEntryEnum", "TypeEntryStruct", "TypeEntryNewtype"):
             rep.ob("C06.W1", "type-level-default-checked:%s" % kind, ("%s{default: Some(" % kind) in pats, "check_defaults matches %s{default: Some(..)}" % kind, c.fns[cd].get("sp"))
         s = src(body)
-        rep.ob("C06.W1", "validator-result-propagated", "validate_value(type_space, default)?" in s, "the type-level validation result is propagated with `?`")
+        tried = [n for n, _ in nodes(body, "match") if n.get("src") == "try" and any(x.get("k") == "mcall" and x.get("fn") == val for x, _ in walk(n["scrut"]))]
+        rep.ob("C06.W1", "validator-result-propagated", bool(tried), "the type-level validation result is propagated with `?`")
         propcheck = [x for x in set(calls_in(body)) if x in c.hir and x != val and "TypeEntry" in x]
         rep.ob("C06.W1", "property-defaults:struct", "TypeEntryStruct{properties" in pats and bool(propcheck), "struct properties are checked via %s" % [short(x) for x in propcheck])
         rep.ob("C06.W1", "property-defaults:struct-variants", "VariantDetails::Struct(" in src(body) or "VariantDetails::Struct" in " ".join(psrc(x) for x, _ in walk(body) if x.get("k") == "letx" for x in [x["pat"]]),
                "struct-variant properties are checked")
         for pq in propcheck:
             sb = src(c.hir[pq]["body"])
-            rep.ob("C06.W1", "property-validator-propagates:%s" % short(pq), "validate_value(type_space, prop_default)?" in sb or ("validate_value(" in sb and ")?" in sb), "%s propagates the validator's error" % short(pq), c.fns[pq].get("sp"))
+            tried2 = [n for n, _ in nodes(c.hir[pq]["body"], "match") if n.get("src") == "try" and any(x.get("k") == "mcall" and x.get("fn") == val for x, _ in walk(n["scrut"]))]
+            rep.ob("C06.W1", "property-validator-propagates:%s" % short(pq), bool(tried2), "%s propagates the validator's error" % short(pq), c.fns[pq].get("sp"))
         # every public ingestion entry finalises the whole batch
         entries = []
         for h in c.user_fns():
